@@ -95,6 +95,9 @@ def class_sig(M):
             for a in ('ENDOGENOUS', 'EXOGENOUS', 'PARAMETERS', 'ERRORS', 'NAMES', 'CHECK', 'LAGS', 'LEADS')}
 
 
+METHOD_ILLEGAL = ('from math import *', 'global t')     # compile on their own, not inside a method
+
+
 def check_case(case):
     prog = case['prog']
     opts = {k: v for k, v in (case.get('opts') or {}).items() if v is not None}
@@ -103,6 +106,10 @@ def check_case(case):
     res = Result(classes=['converter:' + kind] + sorted(feats))
     text, _ = G.render_program(prog, [])
     parsed = attempt(fsic.parse_model, text)
+    if not parsed.ok and any(st_[0] == 'block' and st_[1] in METHOD_ILLEGAL for st_ in prog):
+        # symbol lists the parser only hands out with its syntax check switched off: build_model has to reject them
+        parsed = attempt(fsic.parse_model, text, check_syntax=False)
+        res.tag('parsed-without-syntax-check')
     if not parsed.ok:
         res.tag('skipped:parse-rejected')
         return res
@@ -133,6 +140,16 @@ def check_case(case):
         d = attempt(fsic.build_model_definition, symbols, converter=make_converter(kind, log_d),
                     with_type_hints=hints, **opts)
         b = attempt(fsic.build_model, symbols, converter=make_converter(kind, log_b), with_type_hints=hints, **opts)
+        if d.ok and not b.ok and b.exc_name == 'BuildError':
+            # build_model rejects a body that does not compile inside the method (e.g. a verbatim `from math import *`):
+            # then the definition text must be just as unusable - the two routes reject together
+            ex = attempt(exec_definition, d.value)
+            res.tag('build-rejected:BuildError')
+            res.nontrivial = True
+            if ex.ok:
+                res.fail(f'build/rejected-but-definition-executes/{tag}', f'{text!r} {opts}: build_model {b!r}, '
+                         f'but the text of build_model_definition executes')
+            return res
         if not d.ok or not b.ok:
             if d.exc_name != b.exc_name:
                 res.fail(f'build/outcome-differs/{tag}', f'{text!r} {opts}: definition {d!r}, build_model {b!r}')
@@ -228,7 +245,11 @@ def strategy():
         st.just([]),
         st.sampled_from([[['block', 'pass']], [['block', 'x = 1\ny = x + 1']], [['block', 'pass'], ['block', 'pass']],
                          [['block', 'assert t < 0, "never"']], [['block', 'if __debug__:\n    raise KeyError(t)']],
-                         [['block', 'x = 1'], ['block', 'x = 1']]]),
+                         [['block', 'x = 1'], ['block', 'x = 1']],
+                         # statements that compile on their own (the parser's syntax check) but not inside a method
+                         [['block', 'from math import *']], [['block', 'global t']],
+                         [['assign', ['var', 'Y', 'v', None], ['var', 'X', 'v', -1]], ['block', 'from math import *']],
+                         [['block', 'global t'], ['assign', ['var', 'Y', 'v', None], ['bin', '+', ['var', 'C', 'v', None], ['var', 'G', 'v', None]]]]]),
     )
     return st.fixed_dictionaries({
         'prog': progs,
